@@ -28,3 +28,55 @@ Proof.
   - repeat constructor.
   - vm_compute. reflexivity.
 Qed.
+
+(* ---- the allocation bound for the generated table ---- *)
+From KV Require Import Proofs.SchemaAlloc.
+
+Definition KMAX : Z := 217.
+
+Lemma registered_kfac_le : forall m, In m schemas -> (kfac (ms_ty m) <= KMAX)%Z.
+Proof.
+  assert (H : forallb (fun m => (kfac (ms_ty m) <=? KMAX)%Z) schemas = true) by (vm_compute; reflexivity).
+  rewrite forallb_forall in H. intros m Hm. specialize (H m Hm). apply Z.leb_le in H. exact H.
+Qed.
+
+Lemma every_registered_type_alloc c m input :
+  In m schemas -> bytes_ok input ->
+  let size := get_bes 4 (firstn 4 input) in
+  match read_response c m.(ms_flex) m.(ms_ty) input with
+  | Ok _ s' => (zal s' <= 2 * KMAX * Z.max 0 size)%Z
+  | Err _ _ al => (Z.of_N al <= 2 * KMAX * Z.max 0 size)%Z
+  | Oom => (Z.of_N (budget c) < 2 * KMAX * Z.max 0 size)%Z
+  | Panic => False
+  | OutOfFuel => False
+  end.
+Proof.
+  intros Hin Hb size.
+  pose proof gen_schemas_ok as Hok. unfold schemas_ok in Hok. rewrite forallb_forall in Hok.
+  specialize (Hok m Hin). apply andb_true_iff in Hok as [Hok _].
+  pose proof (response_alloc_bounded c (ms_flex m) (ms_ty m) input Hok Hb) as H. cbv zeta in H. fold size in H.
+  pose proof (every_registered_type_total c m input Hin Hb) as HT.
+  pose proof (registered_kfac_le m Hin) as HK. pose proof (kfac_nonneg (ms_ty m)) as HK0.
+  unfold KMAX in *.
+  destruct (read_response c (ms_flex m) (ms_ty m) input); try exact HT; nia.
+Qed.
+
+Lemma alloc_proportional_refuted :
+  ~ (forall c flex t input,
+      schema_ok flex t = true -> bytes_ok input ->
+      match read_response c flex t input with
+      | Ok _ s' => (zal s' <= 2 * Z.max 1 (kfac t) * Z.of_nat (length input))%Z
+      | Err _ _ al => (Z.of_N al <= 2 * Z.max 1 (kfac t) * Z.of_nat (length input))%Z
+      | Oom => (Z.of_N (budget c) < 2 * Z.max 1 (kfac t) * Z.of_nat (length input))%Z
+      | Panic => True | OutOfFuel => True
+      end).
+Proof.
+  intros H.
+  specialize (H {| budget := 1073741824 |} false (TStruct [TBytes true] [])
+                [127; 255; 255; 255; 0; 0; 0; 1; 127; 255; 255; 240; 1; 2]%N eq_refl).
+  assert (Hb : bytes_ok [127; 255; 255; 255; 0; 0; 0; 1; 127; 255; 255; 240; 1; 2]%N) by (repeat constructor).
+  specialize (H Hb).
+  assert (E : read_response {| budget := 1073741824 |} false (TStruct [TBytes true] [])
+                [127; 255; 255; 255; 0; 0; 0; 1; 127; 255; 255; 240; 1; 2]%N = Oom) by (vm_compute; reflexivity).
+  rewrite E in H. vm_compute in H. discriminate H.
+Qed.
